@@ -85,8 +85,8 @@ class Gen:
             b = r.below(2)
             return ("true" if b else "false"), "(const (b %d))" % b
         if ty == "text":
-            s = r.choice(["", "a", "b", "ab", "abc", "B", "x y", "é", "abcdefghijklmnop"])
-            return "'%s'" % s, "(const %s)" % sx_value("S" + s)
+            s = r.choice(["", "a", "b", "ab", "abc", "B", "x y", "é", "abcdefghijklmnop", "a'b"])
+            return "'%s'" % s.replace("'", "''"), "(const %s)" % sx_value("S" + s)
         raise ValueError(ty)
 
     def cols_of(self, scopes, ty, depth0_only=False):
@@ -694,7 +694,7 @@ def make_db(rng, ntables=3, max_rows=30):
                 elif t == "bool":
                     row.append("B%d" % rng.below(2))
                 else:
-                    row.append("S" + rng.choice(["", "a", "a", "b", "ab", "abc", "B", "é", "abcdefghijklmnop", "x y"]))
+                    row.append("S" + rng.choice(["", "a", "a", "b", "ab", "abc", "B", "é", "abcdefghijklmnop", "x y", "a'b"]))
             rows.append(row)
         tables.append(("t%d" % ti, cols, rows))
     return tables
